@@ -71,6 +71,7 @@ type run struct {
 	stopWatch chan struct{}
 	post      func() // post-run checks executed outside the bubble (real time allowed)
 	inconclusive string
+	hangBenign   bool // the watchdog fired but the scenario found no pending obligation of any property
 	closeNow  chan struct{} // closed when the case's close-at(k) point is reached (C12)
 	closeOnce sync.Once
 	classify  func() string // history facts attached to violations that carry no class of their own
